@@ -167,12 +167,16 @@ class Ctx:
         self.builds.append("%s: %s %s" % (name, cc, " ".join(f for f in flags if f)))
         return self._libs[key]
 
-    def model_obj(self, cc="gcc", flags=("-O2",), tag="m"):
+    def model_obj(self, cc="gcc", flags=()):
+        """The reference model; instrumented like the harness when the harness runs under MSan/TSan
+        (an uninstrumented model would make every oracle value look uninitialised to MSan)."""
+        inst = [f for f in flags if f.startswith("-fsanitize=memory") or f.startswith("-fsanitize-memory") or f == "-fsanitize=thread"]
+        tag = "plain" if not inst else (cc + "-" + "".join(c for c in "".join(inst) if c.isalnum()))
         d = os.path.join(self.scratch, "model-" + tag)
         o = os.path.join(d, "model.o")
         if not os.path.exists(o):
             os.makedirs(d, exist_ok=True)
-            _sh([cc, "-c", "-O2"] + [f for f in flags if f.startswith("-g")] + [VERIF + "/model/model.c", "-o", o])
+            _sh([cc if inst else "gcc", "-c", "-O2", "-g"] + inst + [VERIF + "/model/model.c", "-o", o])
         return o
 
     def model_selfcheck(self):
@@ -195,7 +199,7 @@ class Ctx:
                "-D" + GUARD] + ["-D" + x for x in defs] + [f for f in flags if f]
         cmd += [os.path.join(VERIF, "harness", src)] + [os.path.join(VERIF, "harness", e) for e in extra]
         if with_model:
-            cmd.append(self.model_obj())
+            cmd.append(self.model_obj(cc, flags))
         if lib:
             cmd.append(lib["static"])
         cmd += list(ldflags) + ["-o", exe, "-lpthread"]
